@@ -356,29 +356,46 @@ fn pick_block_positions(
 /// polynomial degrees are d, d + 255/e, d + 2*255/e, ... - their locator polynomial is the binomial x^e + b
 /// (only two non-zero coefficients). Unions of two cosets give other sparse locators. Needs a block long enough.
 fn coset_positions(rng: &mut Rng, s: &SizeInfo, b: usize, max_errors: usize) -> Option<Vec<usize>> {
+    coset_groups(rng, s, b, max_errors).map(|g| g.into_iter().flatten().collect())
+}
+
+/// Complete cosets of multiplicative subgroups as error positions, grouped by coset: one or two cosets of
+/// possibly different orders, or MANY cosets of the same order e (as many as the weight allows) - with equal
+/// values inside each coset every syndrome S_j with e not dividing j vanishes, so the locator search takes one
+/// singular jump per coset.
+fn coset_groups(rng: &mut Rng, s: &SizeInfo, b: usize, max_errors: usize) -> Option<Vec<Vec<usize>>> {
     let pos = s.block_positions(b);
     let nb = pos.len();
-    let mut out: Vec<usize> = Vec::new();
-    let n_cosets = if rng.chance(2, 3) { 1 } else { 2 };
-    for _ in 0..n_cosets {
+    let mut out: Vec<Vec<usize>> = Vec::new();
+    let mut used: Vec<usize> = Vec::new();
+    let many = rng.chance(1, 3);
+    let n_cosets = if many { usize::MAX } else if rng.chance(2, 3) { 1 } else { 2 };
+    let mut order: Option<usize> = None;
+    let mut tries = 0;
+    while out.len() < n_cosets && tries < 200 {
+        tries += 1;
         let cands: Vec<usize> = [3usize, 5, 15, 17, 51]
             .iter()
             .copied()
-            .filter(|e| out.len() + *e <= max_errors && (*e - 1) * (255 / *e) < nb)
+            .filter(|e| used.len() + *e <= max_errors && (*e - 1) * (255 / *e) < nb)
+            .filter(|e| !many || order.map_or(true, |o| o == *e))
             .collect();
         if cands.is_empty() {
             break;
         }
-        let e = *rng.pick(&cands);
+        let e = if many && order.is_none() && rng.chance(1, 2) { cands[0] } else { *rng.pick(&cands) };
+        order = Some(e);
         let stride = 255 / e;
         let span = (e - 1) * stride;
         let d0 = rng.range(0, (nb - 1 - span).min(stride - 1));
-        for i in 0..e {
-            let deg = d0 + i * stride;
-            let p = pos[nb - 1 - deg];
-            if !out.contains(&p) {
-                out.push(p);
-            }
+        let group: Vec<usize> = (0..e).map(|i| pos[nb - 1 - (d0 + i * stride)]).collect();
+        if group.iter().any(|p| used.contains(p)) {
+            continue;
+        }
+        used.extend(group.iter().copied());
+        out.push(group);
+        if many && rng.chance(1, 12) {
+            break;
         }
     }
     if out.is_empty() {
@@ -546,7 +563,13 @@ fn cancel_faults_w(ctx: &Ctx, rng: &mut Rng, s: &SizeInfo, faults: &mut Vec<Faul
     // or a random subset
     let zero_set = |rng: &mut Rng, m: usize| -> Vec<usize> {
         let m = m.min(k);
-        match rng.below(10) {
+        match rng.below(11) {
+            10 => {
+                // an arithmetic progression of indices (every 2nd / 3rd / 4th syndrome), from a random offset
+                let d = rng.range(2, 4);
+                let o = rng.range(1, d);
+                (0..m).map(|i| o + i * d).filter(|j| *j <= k).collect()
+            }
             0..=4 => (1..=m).collect(),
             5 | 6 => (k - m + 1..=k).collect(),
             7 => {
@@ -1022,7 +1045,15 @@ fn syndrome_faults(ctx: &Ctx, rng: &mut Rng, s: &SizeInfo, b: usize, faults: &mu
 fn aligned_roots(rng: &mut Rng, s: &SizeInfo) -> Vec<usize> {
     let t = s.t();
     let k = s.k;
-    match rng.below(17) {
+    match rng.below(19) {
+        17 | 18 => {
+            // strided sets: every d-th syndrome consistent (all odd ones, all even ones, every third, ...),
+            // or everything BUT such a set - what a test over "half of the syndromes" would look at
+            let d = rng.range(2, 4);
+            let o = rng.range(1, d);
+            let inv = rng.chance(1, 3);
+            (1..=k).filter(|j| ((*j + d - o) % d == 0) != inv).collect()
+        }
         0 | 1 => (1..=2 * t).collect(),            // on odd k: only the last syndrome can notice
         2 => (1..=k).collect(),                    // lands on another valid codeword
         3 => (1..=rng.range(t, k)).collect(),      // first t syndromes vanish
@@ -1348,6 +1379,106 @@ fn foreign_ec_faults(rng: &mut Rng, s: &SizeInfo, data: &[u8], faults: &mut Vec<
         weighted_cw_faults(rng, s, &w, faults);
     }
     any
+}
+
+/// Data lines painted like the fixed pattern next to them. `lines`: (pixel row or column index, pattern) with
+/// pattern 0 = all dark, 1 = all light, 2 = alternating, dark on even coordinates (the phase of a clock track),
+/// 3 = the other phase. Every DATA module of the line is set; the fixed modules are left alone. Returns false
+/// (and adds nothing) unless the resulting damage stays within the correction radius of every block.
+pub fn mimic_line_faults(
+    ctx: &Ctx,
+    s: &SizeInfo,
+    all_cw: &[u8],
+    horizontal: bool,
+    lines: &[(usize, u8)],
+    faults: &mut Vec<Fault>,
+) -> bool {
+    let map = match ctx.maps[s.idx].as_ref() {
+        Some(m) => m,
+        None => return false,
+    };
+    let mut damaged: Vec<usize> = Vec::new();
+    let mut ops: Vec<Fault> = Vec::new();
+    for (line, pat) in lines {
+        let len = if horizontal { s.cols } else { s.rows };
+        for a in 0..len {
+            let px = if horizontal { line * s.cols + a } else { a * s.cols + line };
+            if let Some(crate::catalogue::PixelRole::Data { cw, bit }) = map.roles.get(px) {
+                let want = match pat {
+                    0 => true,
+                    1 => false,
+                    2 => a % 2 == 0,
+                    _ => a % 2 == 1,
+                };
+                let cwi = *cw as usize;
+                if cwi >= all_cw.len() {
+                    continue;
+                }
+                let have = (all_cw[cwi] >> (7 - *bit)) & 1 == 1;
+                if have != want && !damaged.contains(&cwi) {
+                    damaged.push(cwi);
+                }
+                ops.push(Fault::new("mod_mimic", Op::PxSet { idx: px as u32, val: want }));
+            }
+        }
+    }
+    let mut per_block = vec![0usize; s.blocks];
+    for c in &damaged {
+        per_block[s.block_of(*c)] += 1;
+    }
+    if damaged.is_empty() || per_block.iter().any(|n| *n > s.t()) {
+        return false;
+    }
+    faults.extend(ops);
+    true
+}
+
+/// The data lines (pixel rows if `horizontal`, else pixel columns) of a size, and which of them are the last
+/// line before / the first line after an interior region boundary.
+pub fn data_lines(s: &SizeInfo, horizontal: bool) -> (Vec<usize>, Vec<(usize, usize)>) {
+    let (n, regs) = if horizontal { (s.rows, s.reg_rows) } else { (s.cols, s.reg_cols) };
+    let rh = n / regs;
+    let lines: Vec<usize> = (0..n).filter(|r| r % rh != 0 && r % rh != rh - 1).collect();
+    let pairs: Vec<(usize, usize)> = (1..regs).map(|g| (g * rh - 2, g * rh + 1)).collect();
+    (lines, pairs)
+}
+
+fn mimic_trace(ctx: &Ctx, rng: &mut Rng, s: &SizeInfo) -> Option<Trace> {
+    let data = raw_data(rng, s);
+    let ec = real_ec(s, &data)?;
+    let mut all = data.clone();
+    all.extend_from_slice(&ec);
+    for _ in 0..3 {
+        let horizontal = rng.bit();
+        let (lines, pairs) = data_lines(s, horizontal);
+        let mut chosen: Vec<(usize, u8)> = Vec::new();
+        if !pairs.is_empty() && rng.chance(1, 2) {
+            let (a, b) = *rng.pick(&pairs);
+            match rng.below(4) {
+                0 => chosen.push((a, rng.below(4) as u8)),
+                1 => chosen.push((b, rng.below(4) as u8)),
+                _ => {
+                    chosen.push((a, rng.below(4) as u8));
+                    chosen.push((b, rng.below(4) as u8));
+                }
+            }
+        } else {
+            let n = rng.range(1, 3.min(lines.len()));
+            let start = match rng.below(3) {
+                0 => 0,
+                1 => lines.len() - n,
+                _ => rng.below(lines.len() - n + 1),
+            };
+            for l in &lines[start..start + n] {
+                chosen.push((*l, rng.below(4) as u8));
+            }
+        }
+        let mut faults = Vec::new();
+        if mimic_line_faults(ctx, s, &all, horizontal, &chosen, &mut faults) {
+            return Some(Trace { prop: "C03".into(), producer: Producer::Raw { size: s.idx, data }, faults });
+        }
+    }
+    None
 }
 
 // ---------------- pixel-level fault construction ----------------
@@ -2195,6 +2326,11 @@ fn gen_c03(ctx: &Ctx, rng: &mut Rng, i: u64) -> Trace {
             return t;
         }
     }
+    if rng.chance(1, 20) {
+        if let Some(t) = mimic_trace(ctx, rng, s) {
+            return t;
+        }
+    }
     let (producer, msg_data) = producer_for_size_d(rng, s, 25);
     let mut faults = Vec::new();
     let t = gen_c03_faults(ctx, rng, s, &mut faults);
@@ -2247,21 +2383,33 @@ fn gen_c03_faults(ctx: &Ctx, rng: &mut Rng, s: &SizeInfo, faults_out: &mut Vec<F
         11 => {
             // sparse locator polynomials: complete cosets of a multiplicative subgroup (plus a few free errors)
             let b = rng.below(s.blocks);
-            match coset_positions(rng, s, b, s.t()) {
-                Some(mut ps) => {
+            match coset_groups(rng, s, b, s.t()) {
+                Some(groups) => {
+                    // values: one for all, one per coset (many singular jumps), or free
+                    let vmode = rng.below(3);
+                    let one = rng.nonzero_byte();
+                    let mut ps: Vec<usize> = Vec::new();
+                    for g in &groups {
+                        let per = rng.nonzero_byte();
+                        for p in g {
+                            let m = match vmode {
+                                0 => one,
+                                1 => per,
+                                _ => rng.nonzero_byte(),
+                            };
+                            ps.push(*p);
+                            faults.push(Fault::new("cw_coset", Op::CwXor { pos: *p as u32, mask: m }));
+                        }
+                    }
                     let room = s.t() - ps.len();
-                    if room > 0 && rng.chance(1, 3) {
+                    if room > 0 && rng.chance(1, 4) {
                         let extra = rng.range(1, room);
                         for p in pick_block_positions(rng, s, b, extra, Region::Both, PosPattern::Uniform) {
                             if !ps.contains(&p) {
                                 ps.push(p);
+                                faults.push(Fault::new("cw_coset", Op::CwXor { pos: p as u32, mask: rng.nonzero_byte() }));
                             }
                         }
-                    }
-                    let same = if rng.chance(1, 3) { Some(rng.nonzero_byte()) } else { None };
-                    for p in ps {
-                        let m = same.unwrap_or_else(|| rng.nonzero_byte());
-                        faults.push(Fault::new("cw_coset", Op::CwXor { pos: p as u32, mask: m }));
                     }
                 }
                 None => burst_faults(rng, s, Some(s.t()), &mut faults),
